@@ -111,7 +111,7 @@ def skeletons(tier):
                         continue
                     n += 1
 
-                    if len(ks) == maxlen and stmt_at is not None and (n % 3):
+                    if len(ks) == maxlen and (n % (3 if tier == "quick" else 7)):
                         continue
                     variants = [(False, False)]
                     if form == "for":
